@@ -114,7 +114,7 @@ pub fn hexs(b: &[u8]) -> String {
 /// (distinguishes two PDUs of the same length).
 pub fn pdu(len: usize, pattern: u8) -> Vec<u8> {
     match pattern {
-        0 => (0..len).map(|i| ((i * 7 + 1) % 251) as u8).collect(),
+        0 => (0..len).map(|i| (((i * 7 + 1) % 251) as u8) ^ (((i / 251) % 256) as u8).wrapping_mul(29)).collect(),
         1 => vec![0u8; len],
         2 => vec![0xFFu8; len],
         _ => (0..len).map(|i| ((i * 13 + 101) % 241) as u8 ^ 0x80).collect(),
